@@ -91,6 +91,31 @@ Theorem C05_finalize_rejects_bad_macro : forall s ck p k v sc ev, locked s = fal
   exists s', finalize s = (s', Raise "ValueError").
 Proof. exact MacroOperProofs.C05_finalize_rejects_bad_macro. Qed.
 
+(* the repaired hooks visit dictionary KEYS too *)
+Theorem C05_hook_sees_dict_keys : forall f k x l r,
+  In r (flat_values f k) -> In r (flat_values (S f) (VDict ((k, x) :: l))).
+Proof. exact MacroOperProofs.C05_hook_sees_dict_keys. Qed.
+Theorem C05_flat_values_dict_iff : forall f l r,
+  In r (flat_values (S f) (VDict l)) <->
+  r = VDict l \/ exists k x, In (k, x) l /\ (In r (flat_values f k) \/ In r (flat_values f x)).
+Proof. exact MacroOperProofs.C05_flat_values_dict_iff. Qed.
+Theorem C05_finalize_rejects_bad_macro_key : forall s ck p k sc ev x l, locked s = false ->
+  cget ck (config s) = Some p -> sget k p = Some (VDict ((VRef sc "gin.macro" ev, x) :: l)) ->
+  (amem ckey_eqb (scope_str sc, "gin.macro") (config s) = false \/ ev = false) ->
+  exists s', finalize s = (s', Raise "ValueError").
+Proof. exact MacroOperProofs.C05_finalize_rejects_bad_macro_key. Qed.
+(* the code before the repair (flat_values_orig / macros_hook_ok_orig: values only) accepted `m.f.b = {%undefined: 0}` *)
+Theorem C05_orig_finalize_ignored_dict_keys :
+  let sg := {| s_args := ["b"]; s_defaults := []; s_varargs := false; s_kwonly := []; s_varkw := false |} in
+  let pf := {| c_sel := "m.f"; c_kind := KProbe; c_sig := sg; c_allow := []; c_deny := []; c_method := false |} in
+  let s := run_top 50 (setup [pf]) [OParse "f.b" (VDict [(VMacro "undefined", VInt 0)])] in
+  config s = [(("", "m.f"), [("b", VDict [(VRef ["undefined"] "gin.macro" true, VInt 0)])])] /\
+  locked s = false /\
+  macros_hook_ok_orig s = true /\
+  macros_hook_ok s = false /\
+  exists s', finalize s = (s', Raise "ValueError").
+Proof. exact MacroOperProofs.C05_orig_finalize_ignored_dict_keys. Qed.
+
 Print Assumptions C05_use_is_reference.
 Print Assumptions C05_definition_is_binding.
 Print Assumptions C05_resolution_is_static.
@@ -102,3 +127,7 @@ Print Assumptions C05_constant_unique.
 Print Assumptions C05_constant_ambiguous.
 Print Assumptions C05_macros_hook_iff.
 Print Assumptions C05_finalize_rejects_bad_macro.
+Print Assumptions C05_hook_sees_dict_keys.
+Print Assumptions C05_flat_values_dict_iff.
+Print Assumptions C05_finalize_rejects_bad_macro_key.
+Print Assumptions C05_orig_finalize_ignored_dict_keys.
